@@ -1,7 +1,7 @@
 (* C09 — k-medoids refinement never worsens the cost and keeps centres in the data.
    cost = sum of squared frame-to-centre distances (the code compares means over the same n > 0). *)
 From Coq Require Import List ZArith QArith.
-From EV Require Import Cluster ClusterCase ClusterBase ClusterInv ClusterPam ClusterKC ClusterTop ClusterExample KcGuardBase ClusterGen ClusterSkel ClusterGenProofs.
+From EV Require Import Cluster ClusterCase ClusterBase ClusterInv ClusterPam ClusterKC ClusterTop ClusterExample KcGuardBase ClusterGen ClusterSkel ClusterGenProofs ClusterPamHistory.
 Import ListNotations.
 
 (* a proposal is accepted iff it strictly lowers the cost; a rejected proposal leaves the state
@@ -58,6 +58,69 @@ Theorem c09_mean_lt_iff_sum_lt : forall (a b : Q) (n : positive),
   a / inject_Z (Z.pos n) < b / inject_Z (Z.pos n) <-> a < b.
 Proof. exact mean_lt_iff_sum_lt. Qed.
 Print Assumptions c09_mean_lt_iff_sum_lt.
+
+(* ---- the cost along the whole history of a run (no hypothesis on the supplied state) *)
+
+(* a run -- any number of sweeps, any proposals, from ANY state -- either committed nothing at all
+   (labels, distances and medoid indices are the initial ones) or ended strictly cheaper *)
+Theorem c09_run_same_or_strictly_lower : forall D sweeps s,
+  kmedoids D s sweeps = s \/ sumsq (snd (kmedoids D s sweeps)) < sumsq (snd s).
+Proof. exact kmedoids_same_or_lower. Qed.
+Print Assumptions c09_run_same_or_strictly_lower.
+
+(* the cost read after every prefix of the sweep history is a non-increasing chain *)
+Theorem c09_history_monotone : forall D s1 s2 s,
+  sumsq (snd (kmedoids D s (s1 ++ s2))) <= sumsq (snd (kmedoids D s s1)) /\
+  sumsq (snd (kmedoids D s s1)) <= sumsq (snd s).
+Proof. exact kmedoids_history_monotone. Qed.
+Print Assumptions c09_history_monotone.
+
+(* ... and inside one sweep, proposal by proposal *)
+Theorem c09_sweep_history_monotone : forall D p1 p2 cid s,
+  sumsq (snd (pam_sweep_from D cid (p1 ++ p2) s)) <= sumsq (snd (pam_sweep_from D cid p1 s)) /\
+  sumsq (snd (pam_sweep_from D cid p1 s)) <= sumsq (snd s).
+Proof. exact pam_sweep_history_monotone. Qed.
+Print Assumptions c09_sweep_history_monotone.
+
+(* a run that ends at the initial cost rejected every proposal: every intermediate state was the
+   initial state (a candidate is never committed in part) *)
+Theorem c09_equal_cost_nothing_committed : forall D s1 s2 s,
+  sumsq (snd (kmedoids D s (s1 ++ s2))) == sumsq (snd s) -> kmedoids D s s1 = s.
+Proof. exact kmedoids_equal_cost_prefix_unchanged. Qed.
+Print Assumptions c09_equal_cost_nothing_committed.
+
+(* one decision touches no medoid but the one being updated *)
+Theorem c09_update_touches_one_medoid : forall D s cid p t, cid <> t ->
+  nth t (fst (pam_update D s cid p)) 0%nat = nth t (fst s) 0%nat.
+Proof. exact pam_update_other_centre. Qed.
+Print Assumptions c09_update_touches_one_medoid.
+
+(* frames keep identity and order through a decision *)
+Theorem c09_update_keeps_frames : forall D s cid p, fst s <> [] ->
+  map fid (snd (pam_update D s cid p)) = map fid (snd s).
+Proof. exact pam_update_fids. Qed.
+Print Assumptions c09_update_keeps_frames.
+
+(* the number of clusters along the whole history, from any state *)
+Theorem c09_run_keeps_k : forall D sweeps s, length (fst (kmedoids D s sweeps)) = length (fst s).
+Proof. exact kmedoids_k. Qed.
+Print Assumptions c09_run_keeps_k.
+
+(* k-hybrid returns exactly the k-centers solution, or a strictly cheaper one *)
+Theorem c09_hybrid_same_or_strictly_better : forall D nclu cutoff n sweeps,
+  hybrid_cold D nclu cutoff n sweeps = kcenters_cold D nclu cutoff false n \/
+  sumsq (snd (hybrid_cold D nclu cutoff n sweeps)) < sumsq (snd (kcenters_cold D nclu cutoff false n)).
+Proof. exact hybrid_same_or_better. Qed.
+Print Assumptions c09_hybrid_same_or_strictly_better.
+
+(* non-vacuity: on the example run the first sweep lowers the cost 10 -> 4 and the second is
+   rejected whole, so the chain is 10 >= 4 >= 4 and the strict branch is the one taken *)
+Example c09_history_example :
+  sumsq (snd (kmedoids (Dline pos_id) (kcenters_cold (Dline pos_id) (Some 2%nat) 0 false 6) [[1; 4]]%nat)) == 4
+  /\ kmedoids (Dline pos_id) (kmedoids (Dline pos_id) (kcenters_cold (Dline pos_id) (Some 2%nat) 0 false 6) [[1; 4]]%nat) [[0; 3]]%nat
+     = kmedoids (Dline pos_id) (kcenters_cold (Dline pos_id) (Some 2%nat) 0 false 6) [[1; 4]]%nat.
+Proof. vm_compute. split; reflexivity. Qed.
+Print Assumptions c09_history_example.
 
 Example c09_example :
   st_show (hybrid_cold (Dline pos_id) (Some 2%nat) 0 6 [[1; 4]; [0; 3]]%nat) = ([1; 4]%nat, [0; 0; 0; 1; 1; 1]%nat, [1; 0; 1; 1; 0; 1])
